@@ -50,7 +50,9 @@ RunClauses(c, r) == RunClausesG(Planted(c), c.pth, PMin(c), PMax(c), WMin(c, r.m
 FailedSector(r) == UNION { RunClausesG(r.planted, r.onepct, r.pmin, r.pmax, r.pmin, r.pmax, r.runs[k]) :
                            k \in DOMAIN r.runs }
    \* the threshold plot of the sector draws the estimate the table reports
-   \cup (IF \A k \in DOMAIN r.runs : r.runs[k].raised # "" \/ r.runs[k].drawn = <<r.runs[k].th>>
+   \* (a plot that marks no threshold at all - another way of drawing - is not judged)
+   \cup (IF \A k \in DOMAIN r.runs : r.runs[k].raised # "" \/
+              \A j \in DOMAIN r.runs[k].drawn : r.runs[k].drawn[j] = r.runs[k].th
          THEN {} ELSE {"threshold_drawn_in_the_plot_is_not_the_one_reported"})
 
 FailedPlanted(r) ==
